@@ -27,6 +27,7 @@ import (
 type c06Op struct {
 	K  string `json:"k"` // "w" write tx, "rs" reader start, "re" reader end, "ck" snapshot attempt
 	ID int    `json:"id,omitempty"`
+	N  int    `json:"n,omitempty"` // "w": extra rows inserted, i.e. roughly that many more frames
 }
 
 type c06Input struct {
@@ -250,6 +251,7 @@ func c06Run(w *vWriter, in c06Input, dir string) {
 	var saltAtArm [2]uint32
 	nAllMoved, nResetSeen, nResumed, nBusy, nTrunc := 0, 0, 0, 0, 0
 	afterAllMoved := false
+	longFile, longFileAppend := false, false // armed on a file longer than its live frames; a write appended since
 
 	for i, op := range in.Ops {
 		switch op.K {
@@ -261,6 +263,9 @@ func c06Run(w *vWriter, in c06Input, dir string) {
 				return
 			}
 			tx.Exec("INSERT INTO t(v) VALUES(?)", blob())
+			for j := 0; j < op.N; j++ {
+				tx.Exec("INSERT INTO t(v) VALUES(?)", blob())
+			}
 			switch rng.Intn(5) {
 			case 0:
 				for j := 0; j < 1+rng.Intn(4); j++ {
@@ -291,6 +296,9 @@ func c06Run(w *vWriter, in c06Input, dir string) {
 			seen = append(seen, fmt.Sprintf("{| sn_obs := OWrite %s; sn_live := None |}", coqBool(restarted)))
 			if restarted {
 				tags = append(tags, "log-restarted")
+				longFile = false
+			} else if longFile {
+				longFileAppend = true
 			}
 		case "rs":
 			if readers[op.ID] == nil {
@@ -326,7 +334,11 @@ func c06Run(w *vWriter, in c06Input, dir string) {
 			events = append(events, fmt.Sprintf("RStop %s", coqN(uint64(op.ID))))
 			seen = append(seen, "{| sn_obs := ONone; sn_live := None |}")
 		case "ck":
-			emptyB, saltB, _ := walState()
+			emptyB, saltB, liveB := walState()
+			fileFrames := 0
+			if fi, err := os.Stat(d.WALPath()); err == nil && ps > 0 && fi.Size() > 32 {
+				fileFrames = int((fi.Size() - 32) / int64(24+ps))
+			}
 			armedB := mgr.resetWatch.armed
 			var buf bytes.Buffer
 			meta, _, err := mgr.Checkpoint(&buf, tmo)
@@ -386,6 +398,15 @@ func c06Run(w *vWriter, in c06Input, dir string) {
 			}
 			if kind == "AllMoved" {
 				afterAllMoved = true
+				longFile = fileFrames > len(liveB)
+				if longFile {
+					tags = append(tags, "all-moved-on-file-longer-than-live-frames")
+				}
+			} else if kept {
+				if longFileAppend {
+					tags = append(tags, "success-after-append-behind-all-moved-on-long-file")
+				}
+				longFile, longFileAppend = false, false
 			}
 			events = append(events, "Ckpt")
 			seen = append(seen, fmt.Sprintf("{| sn_obs := OCkpt {| o_kind := %s; o_pages := %s; o_moved := %s; o_reset := %s; o_seg := %s; o_armed := %s; o_resume := %s |}; sn_live := %s |}",
@@ -466,6 +487,68 @@ func c06Observation(w *vWriter, dir string) {
 
 // ---------------------------------------------------------------- schedules
 
+// c06Episode builds a steering sequence.  It starts like "a reader takes a read mark at the end of a
+// log with unmoved frames; the attempt moves everything but cannot truncate" and then plays 1-4 further
+// rounds, each ending in another attempt, chosen among:
+//   - the reader leaves, a (usually much shorter) write restarts the log in place - the file keeps its
+//     old length - a new reader parks at the end of the short log, attempt: reset detected and again
+//     all-moved-not-truncated, on a file that is longer than its live frames;
+//   - the writer appends behind the parked reader's mark, attempt: busy (partial move);
+//   - the writer appends, a second reader parks at the new end, the first leaves, attempt: all moved
+//     again, resume index further on;
+//
+// with appends in between while readers stay parked, and finally every reader leaves and an attempt
+// truncates.  Log lengths vary from a couple of frames to dozens.
+func c06Episode(rng *rand.Rand) []c06Op {
+	var t []c06Op
+	size := func(big bool) int {
+		if big {
+			return 8 + rng.Intn(25)
+		}
+		if rng.Intn(4) == 0 {
+			return 1 + rng.Intn(4)
+		}
+		return 0
+	}
+	if rng.Intn(10) < 7 {
+		// meet a quiet log
+		for id := 1; id <= 5; id++ {
+			t = append(t, c06Op{K: "re", ID: id})
+		}
+		t = append(t, c06Op{K: "ck"})
+	}
+	long := rng.Intn(3) != 0 // first generation long, so that later ones are shorter than the file
+	for i := 0; i < 1+rng.Intn(3); i++ {
+		t = append(t, c06Op{K: "w", N: size(long)})
+	}
+	cur, other := 4, 5
+	t = append(t, c06Op{K: "rs", ID: cur}, c06Op{K: "ck"})
+	for r := 0; r < 1+rng.Intn(4); r++ {
+		switch rng.Intn(5) {
+		case 0, 1: // restart in place, park again, attempt
+			t = append(t, c06Op{K: "re", ID: cur}, c06Op{K: "w", N: size(!long && rng.Intn(3) == 0)})
+			if rng.Intn(4) == 0 {
+				t = append(t, c06Op{K: "w", N: size(false)}) // this one appends to the restarted log
+			}
+			cur, other = other, cur
+			t = append(t, c06Op{K: "rs", ID: cur}, c06Op{K: "ck"})
+		case 2: // append behind the mark, attempt (busy)
+			t = append(t, c06Op{K: "w", N: size(false)}, c06Op{K: "ck"})
+		default: // append, re-park at the new end, attempt
+			t = append(t, c06Op{K: "w", N: size(rng.Intn(4) == 0)}, c06Op{K: "rs", ID: other}, c06Op{K: "re", ID: cur}, c06Op{K: "ck"})
+			cur, other = other, cur
+		}
+		if rng.Intn(10) < 6 {
+			t = append(t, c06Op{K: "w", N: size(false)}) // append while the reader stays parked
+		}
+	}
+	t = append(t, c06Op{K: "re", ID: cur}, c06Op{K: "re", ID: other}, c06Op{K: "ck"})
+	if rng.Intn(2) == 0 {
+		t = append(t, c06Op{K: "w", N: size(false)}, c06Op{K: "ck"})
+	}
+	return t
+}
+
 func c06Gen(rng *rand.Rand) []c06Op {
 	n := 5 + rng.Intn(10)
 	active := map[int]bool{}
@@ -473,6 +556,9 @@ func c06Gen(rng *rand.Rand) []c06Op {
 	rnd := func() c06Op {
 		switch r := rng.Intn(100); {
 		case r < 35:
+			if rng.Intn(5) == 0 {
+				return c06Op{K: "w", N: 1 + rng.Intn(12)}
+			}
 			return c06Op{K: "w"}
 		case r < 50:
 			id := 1 + rng.Intn(3)
@@ -491,32 +577,10 @@ func c06Gen(rng *rand.Rand) []c06Op {
 	for len(ops) < n {
 		ops = append(ops, rnd())
 	}
-	// steer: a reader takes a read mark on a log with unmoved frames, the attempt moves everything
-	// but cannot truncate; then either the reader leaves and a writer restarts the log, or the
-	// writer appends behind the mark
-	if rng.Intn(10) < 7 {
-		id := 4
-		var t []c06Op
-		switch rng.Intn(4) {
-		case 0:
-			t = []c06Op{{K: "w"}, {K: "rs", ID: id}, {K: "ck"}, {K: "re", ID: id}, {K: "w"}, {K: "ck"}}
-		case 1:
-			t = []c06Op{{K: "w"}, {K: "rs", ID: id}, {K: "ck"}, {K: "w"}, {K: "ck"}, {K: "re", ID: id}, {K: "ck"}}
-		case 2:
-			t = []c06Op{{K: "w"}, {K: "rs", ID: id}, {K: "ck"}, {K: "re", ID: id}, {K: "ck"}, {K: "w"}, {K: "ck"}}
-		default:
-			t = []c06Op{{K: "w"}, {K: "rs", ID: id}, {K: "ck"}, {K: "w"}, {K: "re", ID: id}, {K: "w"}, {K: "ck"}, {K: "w"}, {K: "ck"}}
-		}
+	// steer (see c06Episode)
+	if rng.Intn(10) < 8 {
+		t := c06Episode(rng)
 		pos := rng.Intn(len(ops) + 1)
-		if rng.Intn(2) == 0 {
-			// first release every reader so that the steering sequence meets a quiet log
-			var pre []c06Op
-			for id := 1; id <= 3; id++ {
-				pre = append(pre, c06Op{K: "re", ID: id})
-			}
-			pre = append(pre, c06Op{K: "ck"})
-			t = append(pre, t...)
-		}
 		ops = append(ops[:pos], append(t, ops[pos:]...)...)
 	}
 	return ops
@@ -550,6 +614,11 @@ func TestVerif_C06(t *testing.T) {
 		"w rs1 ck re1 ck w ck",
 		"ck w w ck ck",
 		"w rs1 ck re1 rs2 w ck re2 w ck",
+		// long log, all moved but not truncated; restarted in place by a short write; second
+		// all-moved-not-truncated on the short log (file longer than its live frames); append; success
+		"W rs1 ck re1 w rs2 ck w re2 ck",
+		"W W rs1 ck re1 w rs2 ck w rs1 re2 ck w re1 ck",
+		"W rs1 ck re1 w w rs2 ck re2 w rs1 ck w w re1 ck",
 	}
 	for i, s := range corpus {
 		var ops []c06Op
@@ -557,6 +626,8 @@ func TestVerif_C06(t *testing.T) {
 			switch {
 			case f == "w" || f == "ck":
 				ops = append(ops, c06Op{K: f})
+			case f == "W":
+				ops = append(ops, c06Op{K: "w", N: 20})
 			default:
 				ops = append(ops, c06Op{K: f[:2], ID: int(f[2] - '0')})
 			}
